@@ -40,7 +40,7 @@ def holdsFor (prop : String) (env : Env) (sc : Scenario) (obs : List Obs) : Bool
   | "C03" => C03.holds env sc obs
   | "C04" => C04.holds env sc obs
   | "C18" => C18.holds sc obs
-  | "C19" => C19.holds sc obs
+  | "C19" => C19.holdsStrict sc obs
   | "C11" => C11.holds obs
   | _ => true
 
@@ -196,26 +196,33 @@ def evalRoute (p : Pending) (glob : Oracle) (obsToks : List String) : String :=
 
 def evalAuth (p : Pending) (glob : Oracle) (obsToks : List String) : String :=
   let ora : Oracle := { urls := glob.urls ++ p.ora.urls, pages := glob.pages ++ p.ora.pages, misc := p.ora.misc }
-  let sc : C09.AuthScn := p.toks.foldl (fun (a : C09.AuthScn) t =>
-    match fields t with
-    | ["cred", u, pw] => { a with table := a.table ++ [(unhex u, unhex pw)] }
-    | ["realm", r] => { a with realm := unhex r }
-    | ["head", h] => { a with head := unhex h }
-    | _ => a) { table := [], realm := [], head := [] }
   let env := ora.env
-  let mlog := (Scenario.run env sc.scenario).log
+  let realm := (p.toks.findSome? fun t => match fields t with | ["realm", r] => some (unhex r) | _ => none).getD []
+  -- tokens in order: `cred` changes the table, `head` is one request against the table of that moment
+  let reqs : List C09.AuthScn := (p.toks.foldl (fun (acc : List (Bytes × Bytes) × List C09.AuthScn) t =>
+    match fields t with
+    | ["cred", u, pw] => (acc.1 ++ [(unhex u, unhex pw)], acc.2)
+    | ["head", h] => (acc.1, acc.2 ++ [{ table := acc.1, realm := realm, head := unhex h }])
+    | _ => acc) ([], [])).2
+  let mlogs := reqs.map fun sc => (Scenario.run env sc.scenario).log
   let ilog := (obsToks.filter (· != "end")).filterMap parseObs
   let badTok := obsToks.filter (fun t => t != "end" && (parseObs t).isNone)
   let keepR (o : Obs) : Bool := match o with | .del => false | .dc => false | .hp => false | _ => true
-  let pm := mergeW (mlog.filter keepR)
-  let pi := mergeW (ilog.filter keepR)
+  -- the implementation's history, cut at each request's first marker
+  let ilogs : List (List Obs) := (ilog.foldl (fun (acc : List (List Obs)) o =>
+    match o, acc with
+    | .ev 0, _ => acc ++ [[o]]
+    | _, [] => [[o]]
+    | _, _ => acc.dropLast ++ [acc.getLast! ++ [o]]) [])
+  let pm := mlogs.map fun l => mergeW (l.filter keepR)
+  let pi := ilogs.map fun l => mergeW (l.filter keepR)
   let eq := pm == pi
-  let hm := C09.holds env sc mlog
-  let hi := C09.holds env sc ilog
-  let miss := containsMiss mlog || !badTok.isEmpty
+  let hm := (reqs.zip mlogs).all fun (sc, l) => C09.holds env sc l
+  let hi := ilogs.length == reqs.length && ((reqs.zip ilogs).all fun (sc, l) => C09.holds env sc l)
+  let miss := mlogs.any containsMiss || !badTok.isEmpty
   let b (x : Bool) := if x then "1" else "0"
   let head := s!"RES {p.prop} {p.id} eq={b eq} hm={b hm} hi={b hi} miss={b miss} crash={b (obsToks.contains "crash")}"
-  if eq && hi && hm && !miss then head else head ++ " | " ++ showLog pm ++ " | " ++ showLog pi
+  if eq && hi && hm && !miss then head else head ++ " | " ++ " || ".intercalate (pm.map showLog) ++ " | " ++ " || ".intercalate (pi.map showLog)
 
 /-! language `copier` -/
 
@@ -456,6 +463,13 @@ def evalLife (p : Pending) (glob : Oracle) (obsToks : List String) : String :=
 /-! language `tls` -/
 
 def evalTls (p : Pending) (glob : Oracle) (obsToks : List String) : String :=
+  if p.toks.contains "stall" then
+    -- liveness scenario: the second client must be served while the first one does not read
+    let ok := obsToks.contains "x:43:01" && !obsToks.contains "crash" && !obsToks.contains "hang"
+    let b (x : Bool) := if x then "1" else "0"
+    s!"RES {p.prop} {p.id} eq={b ok} hm=1 hi={b ok} miss=0 crash={b (obsToks.contains "crash" || obsToks.contains "hang")}" ++
+      (if ok then "" else " | x:43:01 | " ++ " ".intercalate obsToks)
+  else
   let ora : Oracle := { urls := glob.urls ++ p.ora.urls, pages := glob.pages ++ p.ora.pages, misc := p.ora.misc }
   let env := ora.env
   let tls := p.toks.contains "tls"
